@@ -2,8 +2,10 @@ package main
 
 import (
 	"fmt"
+	"io"
 	"os"
 	"strings"
+	"testing/iotest"
 	"time"
 )
 
@@ -39,9 +41,10 @@ func mutateSeq(r *RNG, ref string, alphabet string, num, den int, mixCase bool) 
 }
 
 type layout struct {
-	width int  // 0 = one line
-	crlf  bool // CRLF line ends
-	noEOL bool // no newline after the last line
+	width     int  // 0 = one line
+	crlf      bool // CRLF line ends
+	noEOL     bool // no newline after the last line
+	blankLead bool // an empty line before the first header
 }
 
 func randLayout(r *RNG) layout {
@@ -56,6 +59,7 @@ func randLayout(r *RNG) layout {
 	}
 	l.crlf = r.Chance(1, 5)
 	l.noEOL = r.Chance(1, 5)
+	l.blankLead = r.Chance(1, 8) // an empty line before the first header (`echo; cat aln.fasta`)
 	return l
 }
 
@@ -65,6 +69,9 @@ func renderFasta(headers, seqs []string, l layout) string {
 	eol := "\n"
 	if l.crlf {
 		eol = "\r\n"
+	}
+	if l.blankLead {
+		b.WriteString(eol)
 	}
 	for i := range headers {
 		b.WriteString(">" + headers[i] + eol)
@@ -134,7 +141,8 @@ func withDescriptions(r *RNG, names []string) []string {
 	for i, n := range names {
 		out[i] = n
 		if r.Chance(1, 4) {
-			out[i] = n + " some description " + fmt.Sprint(i)
+			// the ID is the first white-space delimited token: a blank, a TAB or several of them may follow it
+			out[i] = n + r.PickStr([]string{" ", " ", "\t", "  ", " \t"}) + "some description " + fmt.Sprint(i)
 		}
 	}
 	return out
@@ -253,3 +261,18 @@ func genThreshold(r *RNG, n int) (int, int) {
 }
 
 func layoutOf(width int, crlf bool) layout { return layout{width: width, crlf: crlf} }
+
+// textReader hands a text to the code under test through one of the shapes an io.Reader may have: everything at once with
+// io.EOF reported by a separate call (strings.Reader, a file), the last bytes together with io.EOF in one call (a gzip
+// stream, a network body), one byte per call, or short reads of a few bytes. The entry points take io.Reader, so all are valid.
+func textReader(key string, txt string) io.Reader {
+	switch idSeed(key) % 5 {
+	case 1:
+		return iotest.DataErrReader(strings.NewReader(txt))
+	case 2:
+		return iotest.OneByteReader(strings.NewReader(txt))
+	case 3:
+		return iotest.DataErrReader(iotest.HalfReader(strings.NewReader(txt)))
+	}
+	return strings.NewReader(txt)
+}
